@@ -235,25 +235,25 @@ harnesses! {
 
     // process() sizes its vectors from output_frames_next(): with a ramped change pending the
     // wrapper must still succeed and return exactly what the core call writes
-    #[kani::unwind(26)]
+    #[kani::unwind(30)]
     fn c16_process_ffi_ramp_pending(nd) {
-        let mut a = FastFixedIn::<f64>::new(1.0, 2.0, PolynomialDegree::Nearest, 3, 1).unwrap();
-        let mut b = FastFixedIn::<f64>::new(1.0, 2.0, PolynomialDegree::Nearest, 3, 1).unwrap();
+        let mut a = FastFixedIn::<f64>::new(1.0, 2.0, PolynomialDegree::Nearest, 10, 1).unwrap();
+        let mut b = FastFixedIn::<f64>::new(1.0, 2.0, PolynomialDegree::Nearest, 10, 1).unwrap();
         let down = nd.bool();
         let r = if down { 0.5 } else { 2.0 };
         check!(a.set_resample_ratio(r, true).is_ok() && b.set_resample_ratio(r, true).is_ok(), "C03.ok[base]");
-        let mut x = [0.0f64; 3];
+        let mut x = [0.0f64; 10];
         fill_line(&mut x[..], 0);
         let no = b.output_frames_next();
-        crate::fit!(nd, no <= 16, "C16.demand_fits_scenario_bound[base]");
-        let mut ob = [SENT; 16];
+        crate::fit!(nd, no <= 26, "C16.demand_fits_scenario_bound[base]");
+        let mut ob = [SENT; 26];
         let ra = a.process(&[&x[..]], None);
         let rb = b.process_into_buffer(&[&x[..]], &mut [&mut ob[..no]], None);
         match (&ra, &rb) {
             (Ok(v), Ok((_, cnt))) => {
                 check!(v.len() == 1 && v[0].len() == *cnt, "C16.process_lengths[base]");
                 let mut same = true;
-                unroll32!(i, 16, { if v.len() == 1 && i < *cnt && i < v[0].len() && v[0][i].to_bits() != ob[i].to_bits() { same = false; } });
+                unroll32!(i, 26, { if v.len() == 1 && i < *cnt && i < v[0].len() && v[0][i].to_bits() != ob[i].to_bits() { same = false; } });
                 check!(same, "C16.process_values[base]");
                 cover!(*cnt > 0, "frames compared");
             }
